@@ -152,6 +152,17 @@ theorem signer_front (d : Nat) (digest : Bytes) (opts : Option (Nat × Nat)) :
   | fuel => rfl
   | undef => rfl
 
+
+/-- `FromBitcoinSeed` = `FromSeed` with the salt "Bitcoin seed" -/
+theorem fromBitcoinSeed_front (O : Oracles) (seed : Bytes) :
+    Secp.Gen.Drivers.fromBitcoinSeedGen O seed =
+      Secp.Gen.Drivers.fromSeedGen O seed [0x42, 0x69, 0x74, 0x63, 0x6f, 0x69, 0x6e, 0x20, 0x73, 0x65, 0x65, 0x64] := rfl
+
+/-- schnorr `Signature.Verify` is `schnorrVerify … == nil` -/
+theorem schnorrVerifyBool_front (B : Bytes → Bytes) (sig : Nat × Nat) (h : Bytes) (Q : Nat × Nat) :
+    Secp.Gen.Drivers.schnorrVerifyBool B sig h Q =
+      (match Secp.Gen.Drivers.schnorrVerify B sig h Q with | .ok _ => true | _ => false) := rfl
+
 end Secp.Proofs.DriversFront
 
 #print axioms Secp.Proofs.DriversFront.sign_front
